@@ -384,7 +384,7 @@ func stmtsBeforeLoop(fd *ast.FuncDecl) []ast.Stmt {
 }
 
 func checkC16(c *core.Ctx) {
-	c.Explainf("C16 (decided clause: parser/formatter sibling agreement; that equal token counts imply equal text, and comment attachment, are NOT decided). format.go is a second consumer of the token grammar, driven by fixed token counts. R1: every token kind for which ReadFile's switch records something in the File has an arm in format's switch that writes. R2: for each paired construct every token count the parser can take along its non-error paths (sum of expectNext arities, expectAnyOfNext = 1, Next = 1, UnNext = -1, readUntil/loops = unbounded; optNewline/skipEndOfLineComments = trivia) must be a count the formatter can consume (constant-trip loops x body + straight-line Next calls; a loop that runs to a delimiter covers every count); both are recomputed from source on every run. R3: where the parser loops (postfix [] in readFieldType) the formatter loops. R4: every token the formatter takes with a bare tr.Next() is written back as its own text (.concrete) or as the same punctuation literal. R4c: a lookahead (a kind test on a token taken by position) puts the token back with UnNext() or writes it on every path of the side where the test fails, before another token is taken or the function returns (go/cfg path rule). The same for a lookahead written as a switch (a non-dispatch switch on .kind some clause of which calls UnNext): every clause, the default and the no-match path account for the token. And a loop that ends on `if <tok>.kind == K { break }` holds K when it ends: K is written before anything else is taken, where a call to a helper that starts with tr.Next() counts as taking (helpers are summarised by their first token event). R4d: a token or its text is only ever appended, assigned or written in format.go — handing it to any other function is a transformation of source text (a re-spaced `//[tag(…)]` stops being a field tag). R5: the readonly marker is carried to the struct formatter. R5b: the token kinds the parser skips between `readonly` and the record keyword (through a helper handed the reader before the arm's own Next()) are kinds on which format leaves its marker set. R7: every non-range loop of the formatter takes a token per cycle on balance or counts to its bound (the loop-progress rule of C10/R9 on format.go): Format terminates on finite input. R6: a line comment reaches the output with its line break: the tokenizer appends everything its delimiter read returned, or every formatter site adds the break. R8: the parser does not let a line break decide whether a non-comment attribute reaches its definition (C11/R1b on the five definition loops): Format removes blank lines, so an attribute a blank line detaches would be attached after formatting.")
+	c.Explainf("C16 (decided clause: parser/formatter sibling agreement; that equal token counts imply equal text, and comment attachment, are NOT decided). format.go is a second consumer of the token grammar, driven by fixed token counts. R1: every token kind for which ReadFile's switch records something in the File has an arm in format's switch that writes. R2: for each paired construct every token count the parser can take along its non-error paths (sum of expectNext arities, expectAnyOfNext = 1, Next = 1, UnNext = -1, readUntil/loops = unbounded; optNewline/skipEndOfLineComments = trivia) must be a count the formatter can consume (constant-trip loops x body + straight-line Next calls; a loop that runs to a delimiter covers every count); both are recomputed from source on every run. R3: where the parser loops (postfix [] in readFieldType) the formatter loops. R4: every token the formatter takes with a bare tr.Next() is written back as its own text (.concrete) or as the same punctuation literal. R4c: a lookahead (a kind test on a token taken by position) puts the token back with UnNext() or writes it on every path of the side where the test fails, before another token is taken or the function returns (go/cfg path rule). The same for a lookahead written as a switch (a non-dispatch switch on .kind some clause of which calls UnNext): every clause, the default and the no-match path account for the token. And a loop that ends on `if <tok>.kind == K { break }` holds K when it ends: K is written before anything else is taken, where a call to a helper that starts with tr.Next() counts as taking (helpers are summarised by their first token event). R4d: a token or its text is only ever appended, assigned or written in format.go — handing it to any other function is a transformation of source text (a re-spaced `//[tag(…)]` stops being a field tag). R4e: the writer handed to iohelp.NewErrorWriter in format.go is the caller's own, or a wrapper of this package whose Write hands its argument on unchanged. R5: the readonly marker is carried to the struct formatter. R5b: the token kinds the parser skips between `readonly` and the record keyword (through a helper handed the reader before the arm's own Next()) are kinds on which format leaves its marker set. R7: every non-range loop of the formatter takes a token per cycle on balance or counts to its bound (the loop-progress rule of C10/R9 on format.go): Format terminates on finite input. R6: a line comment reaches the output with its line break: the tokenizer appends everything its delimiter read returned, or every formatter site adds the break. R8: the parser does not let a line break decide whether a non-comment attribute reaches its definition (C11/R1b on the five definition loops): Format removes blank lines, so an attribute a blank line detaches would be attached after formatting.")
 	p := loadRepo(c)
 	if p == nil {
 		return
@@ -674,6 +674,7 @@ func checkC16(c *core.Ctx) {
 	// R7: Format terminates — every loop of the formatter takes a token per cycle or counts to a bound
 	checkLoopProgress(c, p, "R7", "format.go")
 	attributesSurviveLineBreaks(c, p)
+	outputUntouched(c, p)
 	c.Floor("loops_checked_for_progress", 8)
 	c.Count("formatter_next_calls", nNext)
 	c.Floor("formatter_next_calls", 8)
@@ -1522,4 +1523,96 @@ func attributesSurviveLineBreaks(c *core.Ctx, p *load.Prog) {
 	}
 	c.Count("attribute_survival_obligations", kept)
 	c.Floor("attribute_survival_obligations", 4)
+}
+
+// outputUntouched: R4e. What the formatter writes reaches the caller's writer
+// as written: the value handed to iohelp.NewErrorWriter in format.go is the
+// function's own io.Writer parameter, or a wrapper declared in this package
+// whose Write hands its argument on unchanged. A wrapper that edits the bytes
+// (normalising line ends, trimming) edits string literals and comments too —
+// the one place where R4d's "token text is written verbatim" can be undone
+// after the fact.
+func outputUntouched(c *core.Ctx, p *load.Prog) {
+	pkg := p.Bebop()
+	info := pkg.TypesInfo
+	n := 0
+	for _, fd := range funcsOfFiles(p, pkg, "format.go") {
+		ast.Inspect(fd.Body, func(nd ast.Node) bool {
+			call, ok := nd.(*ast.CallExpr)
+			if !ok || len(call.Args) != 1 {
+				return true
+			}
+			cal := load.Callee(info, call)
+			if cal == nil || cal.Name() != "NewErrorWriter" {
+				return true
+			}
+			n++
+			key := fd.Name.Name + " writes to the caller's writer itself"
+			arg := ast.Unparen(call.Args[0])
+			if id, ok := arg.(*ast.Ident); ok {
+				if v, ok := info.ObjectOf(id).(*types.Var); ok && isParamOf(info, fd, v) {
+					c.Check("R4e", key, p.Pos(call.Pos()), true, "")
+					return true
+				}
+			}
+			// a wrapper type of this package
+			t := info.TypeOf(arg)
+			var named *types.Named
+			if t != nil {
+				if pt, ok := t.(*types.Pointer); ok {
+					t = pt.Elem()
+				}
+				named, _ = t.(*types.Named)
+			}
+			if named == nil || named.Obj().Pkg() != pkg.Types {
+				c.Undecide("%s: the writer handed to NewErrorWriter (%s) is neither the function's parameter nor a wrapper declared in this package", fd.Name.Name, wire.Canon(arg))
+				return true
+			}
+			var write *ast.FuncDecl
+			for fn, d := range p.AllDecls() {
+				if p.Owner(fn) == pkg && fn.Name() == "Write" && d.Recv != nil {
+					if sig, ok := fn.Type().(*types.Signature); ok && sig.Recv() != nil {
+						rt := sig.Recv().Type()
+						if pt, ok := rt.(*types.Pointer); ok {
+							rt = pt.Elem()
+						}
+						if rt == types.Type(named) {
+							write = d
+						}
+					}
+				}
+			}
+			if write == nil || write.Body == nil || len(write.Type.Params.List) != 1 || len(write.Type.Params.List[0].Names) != 1 {
+				c.Undecide("%s: the Write method of the wrapper %s was not found", fd.Name.Name, named.Obj().Name())
+				return true
+			}
+			param := info.Defs[write.Type.Params.List[0].Names[0]]
+			edits := ""
+			inner := 0
+			ast.Inspect(write.Body, func(m ast.Node) bool {
+				ic, ok := m.(*ast.CallExpr)
+				if !ok || len(ic.Args) != 1 {
+					return true
+				}
+				sel, ok := ast.Unparen(ic.Fun).(*ast.SelectorExpr)
+				if !ok || sel.Sel.Name != "Write" {
+					return true
+				}
+				inner++
+				if id, ok := ast.Unparen(ic.Args[0]).(*ast.Ident); !ok || info.ObjectOf(id) != param {
+					edits = wire.Canon(ic.Args[0])
+				}
+				return true
+			})
+			if inner == 0 {
+				c.Undecide("%s: the wrapper %s does not call an inner Write the rule can see", fd.Name.Name, named.Obj().Name())
+				return true
+			}
+			c.Check("R4e", key, p.Pos(call.Pos()), edits == "",
+				fmt.Sprintf("the output goes through %s, whose Write hands on %s instead of the bytes it was given: string literals and comments are rewritten along with the layout, and the formatted file no longer denotes the same schema", named.Obj().Name(), edits))
+			return true
+		})
+	}
+	c.Count("formatter_output_handoffs", n)
+	c.Floor("formatter_output_handoffs", 1)
 }
